@@ -585,7 +585,18 @@ class _PiConst:
 MODELS["numpy.pi"] = _PI
 MODELS["math.pi"] = _PI
 MODELS["numpy.newaxis"] = None
-MODELS["numpy.inf"] = z3.Real("INF")
+class InfVal:
+    """+-infinity as used for running minima / maxima (np.inf): only compared against and replaced, never used in arithmetic."""
+
+    def __init__(self, sign=1):
+        self.sign = sign
+
+    def __repr__(self):
+        return "inf" if self.sign > 0 else "-inf"
+
+
+MODELS["numpy.inf"] = InfVal(1)
+MODELS["math.inf"] = InfVal(1)
 
 
 @model("numpy.floor", "math.floor")
@@ -1481,3 +1492,29 @@ def native_numpy(dotted):
     def fn(I, *a, **k):
         return _from_native(obj(*[_to_native(x) for x in a], **{kk: _to_native(v) for kk, v in k.items()}))
     return ModelFn("numpy-native:" + dotted + " (exact on integer data)", fn)
+
+
+def _ext(op):
+    def one(x, y):
+        if isinstance(x, InfVal):
+            return y if ((op == "max") == (x.sign < 0)) else x
+        if isinstance(y, InfVal):
+            return x if ((op == "max") == (y.sign < 0)) else y
+        c = num_cmp(">" if op == "max" else "<", x, y)
+        c = simp(c) if is_sym(c) else c
+        if not is_sym(c):
+            return x if c else y
+        return b_ite(c, x, y)
+
+    def fn(I, a, b):
+        A, B = as_arr(a), as_arr(b)
+        d = elementwise(one, A, B)
+        if not isinstance(d, np.ndarray):
+            return d
+        cells = d.reshape(-1)
+        return NDArr(d, "o" if any(isinstance(c, InfVal) for c in cells) else arr_kind_of(cells))
+    return fn
+
+
+model("numpy.maximum")(_ext("max"))
+model("numpy.minimum")(_ext("min"))
